@@ -8,6 +8,8 @@ Model driver for C09: answers the op lines of `harness/hx-accounts/src/c09.rs`.
 nest <progid:hex32> <set> <acct>*    decode + validate of the account set over the given accounts
 meta <chain>                          advertised SingleSetMeta of a single-account chain  -> <s><w>
 eq <a:hex32> <b:hex32>                the framework's fast 32-byte comparison            -> 1 | 0
+seq <progid> <vec|arr1|arr2|arr3> <bcast|vecargs|arrargs> <chain with one seeded:ARG> <m> <pda>*m <acct>*
+                                      a Vec / array of argument-taking elements validated with (arg,) / Vec<arg> / [arg; M]
 
 set   := opt(set) | box(set) | rest(set) | arr<N>(set) | vec<N>(set) | addr:<hex32>(set)
        | st(set;set;…) | chain
@@ -140,6 +142,36 @@ def step (_ : Unit) (toks : List String) : Unit × String :=
     match parseKey pid, parseSet set, accts.mapM parseAcct with
     | some pid, some s, some accts => ((), showRes (decodeValidate pid s accts))
     | _, _, _ => ((), "bad-op")
+  | "seq" :: pid :: carrier :: form :: chain :: m :: rest =>
+    -- a `Vec<E>` / `[E; N]` of argument-taking elements (`E` has a `Seeded` layer fed by the argument)
+    let items := chain.splitOn ","
+    let outerS := items.takeWhile (· ≠ "seeded:ARG")
+    let innerS := (items.dropWhile (· ≠ "seeded:ARG")).drop 1
+    let layers (xs : List String) : Option (List Layer) :=
+      xs.mapM (fun x => match parseItem x with | some (.inl l) => some l | _ => none)
+    let formP : Option ArgForm :=
+      if form = "bcast" then some .bcast else if form = "vecargs" then some .vecArgs
+      else if form = "arrargs" then some .arrArgs else none
+    let mN : Option Nat := if m.length ≤ 2 ∧ m ≠ "" ∧ m.toList.all Char.isDigit then m.toNat? else none
+    match parseKey pid, formP, mN, layers outerS, parseChainItems innerS with
+    | some _, some f, some m, some outer, some (inner, base) =>
+      if items.contains "seeded:ARG" ∧ m ≤ rest.length then
+        match (rest.take m).mapM parseKey, (rest.drop m).mapM parseAcct with
+        | some args, some accts =>
+          let c : ArgChain := { outer, inner, base }
+          let n? : Option Nat :=
+            if carrier = "vec" then (if f = .bcast ∧ m ≠ 1 then none else some accts.length)
+            else if carrier = "arr1" ∨ carrier = "arr2" ∨ carrier = "arr3" then
+              let n := (carrier.drop 3).toString.toNat?.getD 0
+              -- arrays: no `Vec<arg>` form; `[arg; M]` needs M = N by type; `(arg,)` takes one argument
+              if f = .vecArgs ∨ (f = .arrArgs ∧ m ≠ n) ∨ (f = .bcast ∧ m ≠ 1) then none else some n
+            else none
+          match n? with
+          | some n => ((), showRes (decodeValidateArgs c f n args accts))
+          | none => ((), "bad-op")
+        | _, _ => ((), "bad-op")
+      else ((), "bad-op")
+    | _, _, _, _, _ => ((), "bad-op")
   | ["meta", chain] =>
     match parseChain chain with
     | some (ls, b) =>
